@@ -197,7 +197,10 @@ def run_shards(exe, args, nshards, tier, outdir, tag, deadline_s, env_extra=None
         err = os.path.join(outdir, f"{tag}.{i}.err")
         cmd = [exe, f"tier={tier}", f"shard={i}/{nshards}", f"out={out}", f"deadline={deadline_s}"] + list(args)
         ef = open(err, "w")
-        procs.append((subprocess.Popen(cmd, stdout=ef, stderr=ef, env=env, cwd=VERIF), out, err, ef))
+        penv = dict(env)
+        penv["ASAN_OPTIONS"] = penv.get("ASAN_OPTIONS", "") + ":log_path=" + os.path.join(outdir, f"{tag}.{i}.asan")
+        penv["UBSAN_OPTIONS"] = penv.get("UBSAN_OPTIONS", "") + ":log_path=" + os.path.join(outdir, f"{tag}.{i}.ubsan")
+        procs.append((subprocess.Popen(cmd, stdout=ef, stderr=ef, env=penv, cwd=VERIF), out, err, ef))
     merged = ShardResult()
     t_end = time.time() + (timeout_s or (deadline_s + 120))
     for p, out, err, ef in procs:
